@@ -308,5 +308,186 @@ func init() {
 		} else {
 			fail("var builtInDefinedNames")
 		}
+		w.WriteString("\n/-! protection: stored flag <- option field (inverted?), constant flags, algorithms, spin counts -/\n")
+		c18ProtFlags(w, "ProtectSheet", "xlsxSheetProtection", "sheetProt")
+		c18ProtFlags(w, "ProtectWorkbook", "xlsxWorkbookProtection", "workbookProt")
+		if fn := funcDecl("", "genISOPasswdHash"); fn == nil {
+			fail("func genISOPasswdHash")
+		} else {
+			var algs []string
+			ast.Inspect(fn.Body, func(n ast.Node) bool {
+				cl, ok := n.(*ast.CompositeLit)
+				if !ok || algs != nil {
+					return true
+				}
+				if mt, ok := cl.Type.(*ast.MapType); ok && src(mt.Key) == "string" {
+					for _, e := range cl.Elts {
+						if kv, ok := e.(*ast.KeyValueExpr); ok {
+							if bl, ok := kv.Key.(*ast.BasicLit); ok {
+								algs = append(algs, unq(bl.Value))
+							}
+						}
+					}
+				}
+				return true
+			})
+			if len(algs) == 0 {
+				fail("genISOPasswdHash: literal map of algorithm names")
+			}
+			fmt.Fprintf(w, "def isoAlgorithms : List String := %s\n", c18StrList(algs))
+		}
+		for _, n := range []string{"sheetProtectionSpinCount", "workbookProtectionSpinCount"} {
+			if v, ok := intConst(n); ok {
+				fmt.Fprintf(w, "def %s : Nat := %s\n", n, v)
+			} else {
+				fail("constant %s", n)
+			}
+		}
+		w.WriteString("\n/-! silently-ignoring guards: setSheetView (View list, ZoomScale bounds), setPageSetUp (FirstPageNumber) -/\n")
+		if fn := funcDecl("xlsxSheetView", "setSheetView"); fn == nil {
+			fail("func (view *xlsxSheetView) setSheetView")
+		} else {
+			var names []string
+			lo, hi := "", ""
+			ast.Inspect(fn.Body, func(n ast.Node) bool {
+				switch x := n.(type) {
+				case *ast.CompositeLit:
+					if at, ok := x.Type.(*ast.ArrayType); ok && src(at.Elt) == "string" && names == nil {
+						for _, e := range x.Elts {
+							if bl, ok := e.(*ast.BasicLit); ok {
+								names = append(names, unq(bl.Value))
+							}
+						}
+					}
+				case *ast.BinaryExpr:
+					if bl, ok := x.Y.(*ast.BasicLit); ok && strings.Contains(src(x.X), "ZoomScale") {
+						if x.Op == token.GEQ {
+							lo = bl.Value
+						}
+						if x.Op == token.LEQ {
+							hi = bl.Value
+						}
+					}
+				}
+				return true
+			})
+			if names == nil || lo == "" || hi == "" {
+				fail("setSheetView: View name list and `ZoomScale >= lo && ZoomScale <= hi`")
+			} else {
+				fmt.Fprintf(w, "def sheetViewNames : List String := %s\ndef zoomMin : Nat := %s\ndef zoomMax : Nat := %s\n", c18StrList(names), lo, hi)
+			}
+		}
+		if fn := funcDecl("xlsxWorksheet", "setPageSetUp"); fn == nil {
+			fail("func (ws *xlsxWorksheet) setPageSetUp")
+		} else {
+			g := ""
+			ast.Inspect(fn.Body, func(n ast.Node) bool {
+				if x, ok := n.(*ast.BinaryExpr); ok && x.Op == token.GTR && strings.Contains(src(x.X), "FirstPageNumber") {
+					if bl, ok := x.Y.(*ast.BasicLit); ok {
+						g = bl.Value
+					}
+				}
+				return true
+			})
+			if g == "" {
+				fail("setPageSetUp: `*opts.FirstPageNumber > <lit>`")
+			} else {
+				fmt.Fprintf(w, "def firstPageNumberAbove : Nat := %s\n", g)
+			}
+		}
+		w.WriteString("\n/-! conditional formats: type and criteria tables (styles.go) -/\n")
+		for _, n := range []string{"validType", "criteriaType", "operatorType"} {
+			c18StrMap(w, n, true)
+		}
+		for _, n := range []string{"drawContFmtFunc", "extractContFmtFunc"} {
+			c18StrMap(w, n, false)
+		}
 	})
+}
+
+// c18StrMap emits a map[string]string literal as an association list, or only its keys.
+func c18StrMap(w *bytes.Buffer, name string, withValues bool) {
+	cl, ok := constExpr(name).(*ast.CompositeLit)
+	if !ok {
+		fail("var %s = map[string]...{...}", name)
+		return
+	}
+	var items []string
+	for _, e := range cl.Elts {
+		kv, ok := e.(*ast.KeyValueExpr)
+		if !ok {
+			continue
+		}
+		k, ok := kv.Key.(*ast.BasicLit)
+		if !ok {
+			continue
+		}
+		if !withValues {
+			items = append(items, leanStr(unq(k.Value)))
+			continue
+		}
+		if v, ok := kv.Value.(*ast.BasicLit); ok {
+			items = append(items, fmt.Sprintf("(%s, %s)", leanStr(unq(k.Value)), leanStr(unq(v.Value))))
+		}
+	}
+	if len(items) == 0 {
+		fail("%s: no literal entries", name)
+	}
+	if withValues {
+		fmt.Fprintf(w, "def %s : List (String × String) := [%s]\n", name, strings.Join(items, ", "))
+	} else {
+		fmt.Fprintf(w, "def %sKeys : List String := [%s]\n", name, strings.Join(items, ", "))
+	}
+}
+
+// c18ProtFlags reads the composite literal &<typ>{...} in a Protect* function:
+// `Stored: !opts.Option` / `Stored: opts.Option` / `Stored: true`.
+func c18ProtFlags(w *bytes.Buffer, fnName, typ, prefix string) {
+	fn := funcDecl("File", fnName)
+	if fn == nil {
+		fail("func (f *File) %s", fnName)
+		return
+	}
+	var flags, consts []string
+	found := false
+	ast.Inspect(fn.Body, func(n ast.Node) bool {
+		cl, ok := n.(*ast.CompositeLit)
+		if !ok || found {
+			return true
+		}
+		if id, ok := cl.Type.(*ast.Ident); !ok || id.Name != typ {
+			return true
+		}
+		found = true
+		for _, e := range cl.Elts {
+			kv, ok := e.(*ast.KeyValueExpr)
+			if !ok {
+				continue
+			}
+			stored := src(kv.Key)
+			val, inv := kv.Value, false
+			if u, ok := val.(*ast.UnaryExpr); ok && u.Op == token.NOT {
+				val, inv = u.X, true
+			}
+			switch v := val.(type) {
+			case *ast.SelectorExpr:
+				if x, ok := v.X.(*ast.Ident); ok && x.Name == "opts" {
+					flags = append(flags, fmt.Sprintf("(%s, %s, %v)", leanStr(stored), leanStr(v.Sel.Name), inv))
+					continue
+				}
+			case *ast.Ident:
+				if v.Name == "true" || v.Name == "false" {
+					consts = append(consts, fmt.Sprintf("(%s, %v)", leanStr(stored), (v.Name == "true") != inv))
+					continue
+				}
+			}
+			fail("%s: unexpected initialiser %s: %s", fnName, stored, src(kv.Value))
+		}
+		return true
+	})
+	if !found {
+		fail("%s: composite literal &%s{...}", fnName, typ)
+	}
+	fmt.Fprintf(w, "def %sFlags : List (String × String × Bool) := [%s]\n", prefix, strings.Join(flags, ", "))
+	fmt.Fprintf(w, "def %sConsts : List (String × Bool) := [%s]\n", prefix, strings.Join(consts, ", "))
 }
